@@ -629,7 +629,10 @@ func runChildSpan(r *ev.Run, self, scratch string, wk, from, to int) int {
 	case strings.Contains(es, "pebble: closed"), strings.Contains(es, "panic: pebble: "),
 		// use-after-free of pebble's manually managed memtable arena / block cache after Close
 		(strings.Contains(es, "fatal error: fault") || strings.Contains(es, "unexpected fault address")) && strings.Contains(headOf(es, 6000), "cockroachdb/pebble"),
-		strings.Contains(es, "nil pointer dereference") && strings.Contains(es, "cockroachdb/pebble") && strings.Contains(es, "jamf/regatta/storage/table/fsm"):
+		strings.Contains(es, "nil pointer dereference") && strings.Contains(es, "cockroachdb/pebble") && strings.Contains(es, "jamf/regatta/storage/table/fsm"),
+		// the previous DB's table files were removed under the reader: pebble's table cache ends the
+		// process through Logger.Fatalf ("<n>.sst: orig err: open …: file does not exist")
+		strings.Contains(es, ".sst:") && strings.Contains(es, "orig err: open") && strings.Contains(es, "file does not exist"):
 		// the read went on using the previous DB after the install had closed it
 		class = "panic:read-on-closed-db"
 	case strings.Contains(es, "WARNING: DATA RACE") && strings.Contains(es, "github.com/jamf/regatta/"):
@@ -639,6 +642,10 @@ func runChildSpan(r *ev.Run, self, scratch string, wk, from, to int) int {
 		if !strings.Contains(es, "github.com/jamf/regatta/") {
 			class = "hang-outside-regatta"
 		}
+	case (strings.Contains(es, "panic:") || strings.Contains(es, "fatal error:") || strings.Contains(es, "\tFATAL\t")) && strings.Contains(headOf(es, 8000), "cockroachdb/pebble"):
+		// any other way pebble ends the process while the read still uses the DB the install closed
+		// (and whose files it removed): one root cause, many symptoms depending on where the reader is
+		class = "panic:read-on-closed-db"
 	case strings.Contains(es, "panic:"):
 		class = "panic:other"
 	case strings.Contains(es, "fatal error:"):
